@@ -21,6 +21,8 @@ def pre_inv(l3, data, inv, alloc):
         allocated = (not isdyn) or alloc is None or alloc.get(n, True)
         if not allocated:
             out.append(s.len == 0)
+            if o.type == OST.STR and o.str_null:
+                out.append(s.byte(0) == 0)   # a NULL buffer stands for the empty string
             continue
         if o.type == OST.STR and o.str_null:
             out.append(s.byte(s.len) == 0)
@@ -167,6 +169,7 @@ def step_state(l3, machine, sidx, sym_is_end, alloc, stats, want=('c06', 'c03', 
     if r != z3.sat:
         d['harness_errors'].append(f'pre-state invariant unsatisfiable at state {sidx}')
         return findings
+    machine.null_strs = tuple(n for n, v in (alloc or {}).items() if not v)
     try:
         apaths = symx.explore(lambda ctx: machine.dispatch(ctx, st, sym, data), solver, assumptions=inv, stats=sx, max_paths=3000)
     except absm.Unsupported as e:
